@@ -89,7 +89,7 @@ def inv_clauses(v, k0=None, with_i2=True):
 
 
 def explore_pm(I, states, comp_ids_ok, role=None, allow_err=False, assume_inv=True, test_req="sym",
-               writer="by_state", inv_i2=True):
+               writer="by_state", inv_i2=True, mtype=None):
     """Build pre-state + message, run the real _process_message, return (pre, post, m, k0)."""
     c = I.ctx
     conn = sc.mk_conn(I, states=states, role=role, test_req=test_req,
@@ -98,8 +98,8 @@ def explore_pm(I, states, comp_ids_ok, role=None, allow_err=False, assume_inv=Tr
     if comp_ids_ok:
         fixed["49"] = conn.f["_session"].f["target_comp_id"]
         fixed["56"] = conn.f["_session"].f["sender_comp_id"]
-    msg = sc.mk_msg(I, "m", allow_err=allow_err, fixed=fixed)
-    m = sc.emsg(I, "m", register=("34", "43", "123", "36", "7", "16", "112"))
+    msg = sc.mk_msg(I, "m", mtype=mtype, allow_err=allow_err, fixed=fixed)
+    m = sc.emsg(I, "m", mtype=mtype, register=("34", "43", "123", "36", "7", "16", "112"))
     pre = sc.eview(I, conn)
     I.ctx.ghost["pre_view"] = pre
     k0 = c.inp_int("k0")
